@@ -94,3 +94,30 @@ func VerifC04_Step() {
 }
 
 func init() { vHarness["VerifC04_Step"] = VerifC04_Step }
+
+// Two frames: first any session frame from the owner (so that whatever the server remembers about "the last frame"
+// is set), then an arbitrary frame from a foreign MAC: the session must be untouched by the second.
+func VerifC04_OwnerThenForeign() {
+	s, sock := verifServer()
+	ss, err := s.sessions.CreateSession(vMACOwner, s.serverMAC)
+	vAssume(err == nil)
+	ss.State = SessionState(ndInt("state", int(StateLCPNegotiation), int(StateEstablished)))
+	ss.Authenticated = ss.State >= StateIPCPNegotiation
+	// owner frame: LCP Echo-Request on the session (harmless, accepted in every state)
+	owner := []byte{0x11, 0x00, byte(ss.ID >> 8), byte(ss.ID), 0x00, 0x0a, 0xc0, 0x21, 9, ndU8("echo.id"), 0, 8, 1, 2, 3, 4}
+	s.handleSession(vMACOwner, owner)
+	pre := verifSnap(ss)
+	nframes := len(sock.frames)
+	bytesIn := ss.BytesIn
+	data := vInput("frame")
+	s.handleSession(vMACForeign, data)
+	vRunPending()
+	now := verifSnap(ss)
+	live := s.sessions.GetSession(ss.ID) == ss
+	vAssert(live && now.state == pre.state && now.authed == pre.authed && now.lcpID == pre.lcpID && now.user == pre.user && (now.ip == nil) == (pre.ip == nil),
+		"a frame from a MAC that does not own the session changed or terminated it")
+	vAssert(len(sock.frames) == nframes && ss.BytesIn == bytesIn, "a frame from a foreign MAC was counted or answered on the session")
+	vReach("end")
+}
+
+func init() { vHarness["VerifC04_OwnerThenForeign"] = VerifC04_OwnerThenForeign }
